@@ -5,3 +5,4 @@ from contracts import py_access as PA
 def build(run):
     PA.itermesh_next(run)
     PA.init_mesh_args(run)
+    PA.qpoints_ownership(run)
